@@ -36,6 +36,11 @@ NOT_APPLICABLE = {
  "C10": "quantifies over goroutine interleavings; sequential function-by-function contracts and the available solvers cannot express or decide schedules, and no Go concurrency verifier is installed",
 }
 
+CLAIMED.update({
+ "C19": ("Partial, proof level for what is covered: every byte imageHasAlpha reads from an *image.NRGBA or *image.RGBA buffer is the alpha byte of one of the first w pixels of a row y with Min.Y <= y < Max.Y (read-footprint obligations with loop invariants; offsets compared modulo 2^64 so no overflow assumption on Stride is needed), hence pixels outside the bounds - stride padding, rows of a parent image - cannot influence the alpha decision, for every bounds/stride/origin. Not covered: the pixel import paths of the codecs (2-D non-linear offsets), byte-identical output across storage layouts, RGBA un-premultiplication.", NOTE, "DESIGN.md §6 C19"),
+})
+NOT_APPLICABLE["C12"] = "the GOMAXPROCS-dependent code paths are goroutine fork-join sections and worker-count-selected algorithms (serial vs parallel hash chain, row-pipelined encoder, histogram remap); the sequential weakest-precondition engine has no model of goroutines and cannot relate the two algorithms, so no contract within reach decides the property"
+
 ALL = ["C%02d" % i for i in range(1, 21)]
 
 def main():
